@@ -57,20 +57,23 @@ class CtxCoder(build.Coder):
         for s in sends:
             fn = 'send' if s['kind'] == 'send' else 'notify'
             out.append('uid = uid + 1')
+            # the payload aliases a mutable object of the context (mutated by every later fragment)
             if s.get('delay'):
-                out.append('%s(%r, u=uid, delay=%r)' % (fn, s['name'], s['delay']))
+                out.append('%s(%r, u=uid, delay=%r, ref=shared)' % (fn, s['name'], s['delay']))
             else:
-                out.append('%s(%r, u=uid)' % (fn, s['name']))
+                out.append('%s(%r, u=uid, ref=shared)' % (fn, s['name']))
         return out
 
     def entry(self, ch, n):
-        return '\n'.join(["log.append(('E', %r, time))" % n, 'v = v + 1'] + self._sends(ch['states'][n]['sends_entry']))
+        return '\n'.join(["log.append(('E', %r, time))" % n, 'v = v + 1', 'shared.append(v)'] + self._sends(ch['states'][n]['sends_entry']))
 
     def exit(self, ch, n):
         return '\n'.join(["log.append(('X', %r, time))" % n, 'v = v + 1'] + self._sends(ch['states'][n]['sends_exit']))
 
     def action(self, ch, t):
-        return '\n'.join(["log.append(('A', %r, event.u if event else None, time))" % t['id'], 'v = v + 1'] + self._sends(t['sends']))
+        return '\n'.join(["log.append(('A', %r, event.u if event else None, len(event.data['ref']) if event and 'ref' in event.data "
+                          "else None, event.data.get('ref') is shared if event else None, time))" % t['id'], 'v = v + 1',
+                          'shared.append(v)'] + self._sends(t['sends']))
 
     def guard(self, ch, t):
         return 'G(%r, stepno, %r, %d)' % (self.vseed, t['id'], self.thr) if t['guard'] else None
@@ -112,7 +115,7 @@ class World:
 
     def __init__(self, ch, coder, with_peers):
         self.sc, _ = build.build_api(ch, coder=coder)
-        self.it = Interpreter(self.sc, initial_context=dict(log=[], v=0, uid=1000, stepno=0, G=G, K=K))
+        self.it = Interpreter(self.sc, initial_context=dict(log=[], shared=[], v=0, uid=1000, stepno=0, G=G, K=K))
         self.peer = None
         self.prop = None
         if with_peers:
@@ -197,7 +200,8 @@ def project(step):
 def run_case(acc, rnd, tier, case):
     T = TIERS[tier]
     ch = gen_chart(rnd, contracts=True, p_contract=0.45, mode=rnd.choice(('history', 'history', None, 'orth')), p_hist=0.6,
-                   p_send=0.5, p_state_send=0.15, delays=(0, 0, 1, 1, 2, 5), **T['gen'])
+                   p_send=0.5, p_state_send=0.15, delays=(0, 0, 1, 1, 2, 5), allow_inner_history=rnd.random() < 0.5, p_notify=0.2,
+                   **T['gen'])
     coder = CtxCoder(repr(rnd.random()), int(rnd.choice((0.5, 0.8, 1.0)) * 2 ** 32))
     with_peers = rnd.random() < 0.5
     script = gen_script(rnd, ch['events'], T['steps'], p_clock=0.4)
